@@ -5,7 +5,7 @@ verus! {
 //@ include prelude/std_assumed.rs
 //@ include prelude/ansi_term.rs
 //@ include prelude/style.rs
-//@ broadcast vax::vax_group vstd::utf8::group_utf8_lib vstd::string::group_string_axioms
+//@ broadcast vax::vax_group vstd::utf8::group_utf8_lib vstd::string::group_string_axioms lemma_sec_push_total lemma_sec_push_spelled lemma_sec_push_spans
 
 pub type LineSections<'a, S> = Vec<(S, &'a str)>;
 pub enum StyleSectionSpecifier<'l> {
@@ -19,11 +19,60 @@ pub fn verif_is_char_boundary(s: &str, index: usize) -> (r: bool)
     ensures r == (index <= s.spec_bytes().len() && is_char_boundary(s.spec_bytes(), index as int))
 { unimplemented!() }
 
+/// (R3) `&s[a..b]` / `&s[a..]`: "Returns a subslice of str ... Panics if begin or end does not point to the starting byte offset of a
+/// character, or if begin > end, or if end > len" (this vstd build checks the precondition of str range indexing but gives its
+/// result no content)
+#[verifier::external_body]
+pub fn verif_str_slice<'a>(s: &'a str, a: usize, b: usize) -> (r: &'a str)
+    requires a <= b <= s.spec_bytes().len(), is_char_boundary(s.spec_bytes(), a as int), is_char_boundary(s.spec_bytes(), b as int),  // @C03:a.slice.of.the.line.lies.inside.it.and.on.character.boundaries
+    ensures r.spec_bytes() == s.spec_bytes().subrange(a as int, b as int),
+{ unimplemented!() }
+#[verifier::external_body]
+pub fn verif_str_tail<'a>(s: &'a str, a: usize) -> (r: &'a str)
+    requires a <= s.spec_bytes().len(), is_char_boundary(s.spec_bytes(), a as int),  // @C03:the.rest.of.the.line.starts.inside.it.and.on.a.character.boundary
+    ensures r.spec_bytes() == s.spec_bytes().subrange(a as int, s.spec_bytes().len() as int),
+{ unimplemented!() }
+
+/// the bytes a list of sections spells, their total length, and the byte ranges of the sections painted in style `m`
+pub open spec fn sec_total(secs: Seq<(Style, &str)>) -> nat decreases secs.len() {
+    if secs.len() == 0 { 0 } else { sec_total(secs.drop_last()) + secs.last().1.spec_bytes().len() }
+}
+pub open spec fn sec_spelled(secs: Seq<(Style, &str)>) -> Seq<u8> decreases secs.len() {
+    if secs.len() == 0 { Seq::empty() } else { sec_spelled(secs.drop_last()) + secs.last().1.spec_bytes() }
+}
+pub open spec fn sec_spans(secs: Seq<(Style, &str)>, m: Style) -> Seq<(int, int)> decreases secs.len() {
+    if secs.len() == 0 { Seq::empty() } else {
+        let p = sec_spans(secs.drop_last(), m);
+        if secs.last().0 == m { p.push((sec_total(secs.drop_last()) as int, sec_total(secs) as int)) } else { p }
+    }
+}
+pub broadcast proof fn lemma_sec_push_total(secs: Seq<(Style, &str)>, x: (Style, &str))
+    ensures #[trigger] sec_total(secs.push(x)) == sec_total(secs) + x.1.spec_bytes().len(),
+{ assert(secs.push(x).drop_last() =~= secs); }
+pub broadcast proof fn lemma_sec_push_spelled(secs: Seq<(Style, &str)>, x: (Style, &str))
+    ensures #[trigger] sec_spelled(secs.push(x)) == sec_spelled(secs) + x.1.spec_bytes(),
+{ assert(secs.push(x).drop_last() =~= secs); }
+pub broadcast proof fn lemma_sec_push_spans(secs: Seq<(Style, &str)>, x: (Style, &str), m: Style)
+    ensures #[trigger] sec_spans(secs.push(x), m) == (if x.0 == m { sec_spans(secs, m).push((sec_total(secs) as int, (sec_total(secs) + x.1.spec_bytes().len()) as int)) } else { sec_spans(secs, m) }),
+{ assert(secs.push(x).drop_last() =~= secs); }
+/// the submatches of an `rg --json` record as rg reports them: byte ranges of the line, on character boundaries, in order, not overlapping
+pub open spec fn subs_wf(subs: Seq<(usize, usize)>, bytes: Seq<u8>) -> bool {
+    &&& forall|j: int| 0 <= j < subs.len() ==> (#[trigger] subs[j]).0 <= subs[j].1 <= bytes.len() && is_char_boundary(bytes, subs[j].0 as int) && is_char_boundary(bytes, subs[j].1 as int)
+    &&& forall|j: int, k: int| 0 <= j < k < subs.len() ==> (#[trigger] subs[j]).1 <= (#[trigger] subs[k]).0
+}
+pub open spec fn subs_int(subs: Seq<(usize, usize)>, n: int) -> Seq<(int, int)> { Seq::new(n as nat, |j: int| (subs[j].0 as int, subs[j].1 as int)) }
+
 //@ fn src/handlers/grep.rs make_style_sections spec=grep.make_style_sections
+//@rewrite <<<&line[curr..start]>>> => <<<verif_str_slice(line, curr, start)>>>
+//@rewrite <<<&line[start..end]>>> => <<<verif_str_slice(line, start, end)>>>
+//@rewrite <<<&line[curr..]>>> => <<<verif_str_tail(line, curr)>>>
+//@loop 1| invariant /* @C16:mss.the.sections.so.far.are.as.long.as.the.cursor.is.far */ sec_total(sections@) == curr, /* @C16:mss.the.sections.so.far.spell.the.line.up.to.the.cursor */ sec_spelled(sections@) == line.spec_bytes().subrange(0, curr as int),
+//@loop 1|     it.seq().len() == submatches@.len(), forall|j: int| 0 <= j < it.seq().len() ==> *(#[trigger] it.seq()[j]) == submatches@[j],
+//@loop 1|     /* @C16:mss.the.highlighted.spans.so.far.are.the.submatches.seen.so.far */ match_style != non_match_style && subs_wf(submatches@, line.spec_bytes()) ==> sec_spans(sections@, match_style) =~= subs_int(submatches@, it.index@ as int) && (it.index@ > 0 ==> curr == submatches@[it.index@ - 1].1) && (it.index@ == 0 ==> curr == 0),
 //@rewrite <<<!line.is_char_boundary(start)>>> => <<<!verif_is_char_boundary(line, start)>>>
 //@rewrite <<<!line.is_char_boundary(end)>>> => <<<!verif_is_char_boundary(line, end)>>>
 //@rewrite <<<for (start_, end_) in submatches {>>> => <<<proof { is_char_boundary_start_end_of_seq(line.spec_bytes()); } for (start_, end_) in it: submatches {>>>
-//@loop 1| invariant curr <= line.spec_bytes().len(), /* @C03,C16:mss.cursor.stays.on.a.char.boundary.inside.the.line */ is_char_boundary(line.spec_bytes(), curr as int),
+//@loop 1|     curr <= line.spec_bytes().len(), /* @C03,C16:mss.cursor.stays.on.a.char.boundary.inside.the.line */ is_char_boundary(line.spec_bytes(), curr as int),
 
 // ---------------------------------------------------------------- GrepLine::expand_tabs: the `shift` closure (F09)
 /// ASSUMED contract of `<[T]>::partition_point` on a slice that is partitioned by the predicate:
